@@ -299,8 +299,15 @@ bool parse_normal_range(Hunk& hunk, const std::string& line)
     // The next character must either be a ',' followed by a number of lines, or just a command.
     // Skip any optional ',' - remembering whether we found it for later on.
     bool has_first_comma = parser.consume_specific(',');
-    if (has_first_comma && !parser.consume_line_number(hunk.old_file_range.number_of_lines))
-        return false;
+    if (has_first_comma) {
+        // The number after the comma is the last line of the range, not a count.
+        LineNumber old_range_end_line = 0;
+        if (!parser.consume_line_number(old_range_end_line))
+            return false;
+        if (old_range_end_line < hunk.old_file_range.start_line)
+            return false;
+        hunk.old_file_range.number_of_lines = old_range_end_line - hunk.old_file_range.start_line + 1;
+    }
 
     // Ensure we've now reached a valid normal command.
     char command = parser.consume();
